@@ -126,6 +126,25 @@ EnvGet(env, n) == env[CHOOSE i \in DOMAIN env : env[i].k = n].s
 \* a branch of allOf/anyOf with a same-file reference replaced by its target
 ResolveB(env, b) == IF Has(b, "ref") /\ EnvHas(env, b.ref.n) THEN EnvGet(env, b.ref.n) ELSE b
 
+\* mergo-style merge of allOf/anyOf branches (see spec/ObjImpl.tla): @@ keeps the left value of a
+\* keyword both sides set and adds the right side's other keywords
+RECURSIVE MergePropsK(_, _)
+MergePropsK(acc, rest) ==
+  IF rest = <<>> THEN acc
+  ELSE LET ps == IF "properties" \in DOMAIN Head(rest) THEN Head(rest).properties ELSE <<>>
+           upd == [i \in DOMAIN acc |->
+                     IF \E j \in DOMAIN ps : ps[j].k = acc[i].k
+                     THEN [k |-> acc[i].k, s |-> acc[i].s @@ ps[CHOOSE j \in DOMAIN ps : ps[j].k = acc[i].k].s]
+                     ELSE acc[i]]
+           new == SelectSeq(ps, LAMBDA kv : \A i \in DOMAIN acc : acc[i].k # kv.k)
+       IN MergePropsK(upd \o new, Tail(rest))
+RECURSIVE ConcatReqK(_)
+ConcatReqK(bs) == IF bs = <<>> THEN <<>>
+                  ELSE (IF "required" \in DOMAIN Head(bs) THEN Head(bs).required ELSE <<>>) \o ConcatReqK(Tail(bs))
+MergedSchema(env, branches) ==
+  LET rs == [i \in DOMAIN branches |-> ResolveB(env, branches[i])] IN
+  ("type" :> <<"object">>) @@ ("properties" :> MergePropsK(<<>>, rs)) @@ ("required" :> ConcatReqK(rs))
+
 (* ---------- numbers ---------- *)
 \* All comparisons on quarter units (U = 4: h stands for h/4; exact in float64 and in decimal text).  "big" landmark numerals are ordered by value: sg*2^e + o with
 \* |o| far smaller than the gap between consecutive landmarks, so the order is lexicographic.
@@ -256,11 +275,18 @@ Valid(env, s, d, D, ctx, lim) ==
              dfl   == UNION {{k \in PropNames(ResolveB(env, s.allOf[i])) :
                                  Has(PropSchema(ResolveB(env, s.allOf[i]), k), "default")} : i \in DOMAIN s.allOf}
              br(i) == ResolveB(env, s.allOf[i]) @@ ("declared" :> names) @@ ("defaulted" :> dfl)
-         IN And3({Valid(env, br(i), d, D, "decl", NoLim) : i \in DOMAIN s.allOf}
-                 \cup {IF d.t = "obj" THEN Acc ELSE IF d.t = "null" THEN Un ELSE Rej})
+         IN IF "AllOfFirstWins" \in D /\ d.t = "obj"
+            THEN Valid(env, MergedSchema(env, s.allOf), d, D, "decl", NoLim)    \* deviation: the merged schema decides
+            ELSE And3({Valid(env, br(i), d, D, "decl", NoLim) : i \in DOMAIN s.allOf}
+                      \cup {IF d.t = "obj" THEN Acc ELSE IF d.t = "null" THEN Un ELSE Rej})
   ELSE IF Has(s, "anyOf") THEN
          LET rs == {Valid(env, s.anyOf[i], d, D, "decl", NoLim) : i \in DOMAIN s.anyOf}
-         IN IF Acc \in rs THEN Acc ELSE IF Un \in rs THEN Un ELSE Rej
+             any == IF Acc \in rs THEN Acc ELSE IF Un \in rs THEN Un ELSE Rej
+         IN \* deviation "AnyOfMergedDecode": after the branch validators the document is decoded into ONE struct
+            \* merged from all branches, whose field types (and nested types' own checks) all apply
+            IF "AnyOfMergedDecode" \in D /\ any = Acc /\ d.t = "obj"
+               /\ ~TypedOnly(env, MergedSchema(env, s.anyOf), d, D) THEN Rej
+            ELSE any
   ELSE
   LET T == Main(s) IN
   IF d.t = "null" THEN
